@@ -2,3 +2,7 @@ import MiniconfVerif.Props.C04
 #print axioms MiniconfVerif.C04.chain_is_concat
 #print axioms MiniconfVerif.C04.chain_transcode
 #print axioms MiniconfVerif.C04.bisimilar_sources_interchangeable
+#print axioms MiniconfVerif.C04.callback_once_per_key
+#print axioms MiniconfVerif.C04.any_key_any_target
+#print axioms MiniconfVerif.C04.index_form_is_position
+#print axioms MiniconfVerif.C04.packed_form_resolves
